@@ -26,6 +26,9 @@ from vlib import VERIF_DIR
 KNOWN_FILE = os.path.join(VERIF_DIR, "known_findings.json")
 
 
+MAX_FAILING_CASES = 25      # per shard: after that many failing cases the search stops (the tree is broken)
+
+
 class Inconclusive(Exception):
     """A case could not be decided (liveness guard, budget) - never a violation."""
 
@@ -143,6 +146,7 @@ class Executor:
         self.mod = mod
         self.open = open_findings
         self.stats = Stats()
+        self.failing_cases = 0
 
     def execute(self, case, generated=True, count=True):
         """Return the list of (unknown) discrepancy kinds of this case."""
@@ -175,6 +179,8 @@ class Executor:
                     st.known_hits[kid] += 1
             else:
                 kinds.append(d["kind"])
+        if kinds and count:
+            self.failing_cases += 1
         return kinds, out
 
 
@@ -230,6 +236,8 @@ def _run_shard(modname, tier, seed, shard, nshards, n_examples, shrink_seconds):
         for i, case in enumerate(enum(tier)):
             if i % nshards != shard:
                 continue
+            if ex.failing_cases >= MAX_FAILING_CASES:
+                break                  # a broken tree: enough evidence, do not grind through the rest
             kinds, out = ex.execute(case, generated=False)
             for k in kinds:
                 if k not in st.failures:
@@ -245,16 +253,24 @@ def _run_shard(modname, tier, seed, shard, nshards, n_examples, shrink_seconds):
 
         first = {}
 
+        class _Enough(Exception):
+            pass
+
         @hypothesis.seed(hseed)
         @settings(max_examples=n_examples, phases=[Phase.generate], **common)
         @given(strat)
         def collect(case):
+            if ex.failing_cases >= MAX_FAILING_CASES:
+                raise _Enough()
             kinds, out = ex.execute(case)
             for k in kinds:
                 if k not in first:
                     first[k] = {"case": case, "disc": out.disc, "origin": "generated"}
 
-        collect()
+        try:
+            collect()
+        except _Enough:
+            pass
 
         # collect-then-shrink: one pass per distinct failure kind (at most 3)
         def shrink_kind(k):
